@@ -7,7 +7,9 @@ An abstract request is  {'ver', 'ts' (offset to now or None), 'async', 'opt', 'o
 an abstract item is     {'op': Operation name, 'bid': hex | None, 'b': body tuple}      (body tuples: see coq_body)
 """
 import copy
+import datetime
 import json
+import logging
 import shutil
 from pathlib import Path
 
@@ -17,11 +19,12 @@ from vlib import coqprint as cp
 
 HEADER = ('From PK Require Import Batch.Cases.\nFrom Coq Require Import List ZArith.\n'
           'Import ListNotations.\nOpen Scope Z_scope.\n')
+SHEADER = HEADER.replace('Batch.Cases', 'Batch.SessionCases')
 USERS = {'alice': 1, 'bob': 2}
 BEO = enums.BatchErrorContinuationOption
 OPTS = {None: None, 'CONTINUE': BEO.CONTINUE, 'STOP': BEO.STOP, 'UNDO': BEO.UNDO}
 OPT_Z = {None: None, 'CONTINUE': 1, 'STOP': 2, 'UNDO': 3}
-ERRS = {'KMIP': 'EVersion', 'Future': 'EFuture', 'Stale': 'EStale', 'Asynchronous': 'EAsync', 'Undo': 'EUndo', 'Batch item ID': 'ENoBid'}
+ERRS = {'Response message length too large': 'ETooLarge', 'KMIP': 'EVersion', 'Future': 'EFuture', 'Stale': 'EStale', 'Asynchronous': 'EAsync', 'Undo': 'EUndo', 'Batch item ID': 'ENoBid'}
 ATTR_NAMES = {'AName': 'Name', 'AGroup': 'Object Group', 'ASens': 'Sensitive', 'AAlg': 'Cryptographic Algorithm', 'AUnknown': 'Bogus Attribute'}
 ATTR_TAGS = {'AName': 'NAME', 'AGroup': 'OBJECT_GROUP', 'ASens': 'SENSITIVE', 'AAlg': 'CRYPTOGRAPHIC_ALGORITHM'}
 AES = enums.CryptographicAlgorithm.AES
@@ -132,6 +135,8 @@ def build_payload(item, ver):
         return kdrv.locate()[1]
     if k == 'unsupported':
         return None
+    if k == 'raw':
+        return RAW[b[1]]()[1]
     raise KeyError(k)
 
 
@@ -224,6 +229,122 @@ def coq_case(pre, req, now, obs):
         copt(obs['err'], str), res, tr, coq_store(obs['final']))
 
 
+def coq_scase(pre, req, now, obs, max_size):
+    if obs['err'] == 'ETooLarge':
+        ans = 'OTooLarge'
+    elif obs['err'] is not None:
+        ans = '(OError %s)' % obs['err']
+    else:
+        ans = '(OResults [%s])' % '; '.join('(%d, %s, %s)' % (OP[r['op']].value, coq_bid(r['bid']), cb(r['ok'])) for r in obs['results'])
+    return '(Build_scase %s %s [%s] %s %s %s %s)' % (
+        coq_store(pre), coq_header(req, now), '; '.join(coq_item(i) for i in req['items']),
+        copt(max_size), cz(obs['size'] or 0), ans, coq_store(obs['final']))
+
+
+# ---------------------------------------------------------------------------------------------- items outside the model
+# Operations and parameter shapes the Gallina model does not cover.  They take part in batches that are judged by the
+# direct oracle only (failed item => store unchanged; complete, ordered, echoed results; twin run without the failed items).
+def _asi(ns, data):
+    return {'application_namespace': ns, 'application_data': data}
+
+
+def _cp(**kw):
+    return kdrv.crypto_params(**kw)
+
+
+E = enums
+RAW = {
+    'ckp': lambda: kdrv.create_key_pair(),
+    'ckp_no_private_mask': lambda: kdrv.create_key_pair(private=[]),
+    'ckp_bad_length': lambda: kdrv.create_key_pair(length=1000),
+    'ckp_dup_public_names': lambda: kdrv.create_key_pair(public=[kdrv.attr(AT.CRYPTOGRAPHIC_USAGE_MASK, [E.CryptographicUsageMask.VERIFY]),
+                                                                  kdrv.attr(AT.NAME, kdrv.name_value('p1'), 0), kdrv.attr(AT.NAME, kdrv.name_value('p1'), 1)]),
+    'derive_no_mask': lambda: kdrv.derive_key(['2'], params=kdrv.cattrs.DerivationParameters(
+        cryptographic_parameters=_cp(hashing_algorithm=E.HashingAlgorithm.SHA_256), derivation_data=b'x')),
+    'derive_missing': lambda: kdrv.derive_key(['99'], params=kdrv.cattrs.DerivationParameters(
+        cryptographic_parameters=_cp(hashing_algorithm=E.HashingAlgorithm.SHA_256), derivation_data=b'x')),
+    'derive_ok': lambda: kdrv.derive_key(['10'], params=kdrv.cattrs.DerivationParameters(
+        cryptographic_parameters=_cp(hashing_algorithm=E.HashingAlgorithm.SHA_256), derivation_data=b'x')),
+    'derive_dup_names': lambda: kdrv.derive_key(['10'], params=kdrv.cattrs.DerivationParameters(
+        cryptographic_parameters=_cp(hashing_algorithm=E.HashingAlgorithm.SHA_256), derivation_data=b'x'),
+        attrs=kdrv.sym_attrs(AES, 128, kdrv.ENC_DEC, names=['d', 'd'])),
+    'encrypt_ok': lambda: kdrv.encrypt('2', _cp(block_cipher_mode=E.BlockCipherMode.CBC, padding_method=E.PaddingMethod.PKCS5,
+                                               cryptographic_algorithm=AES), b'data', b'\x01' * 16),
+    'encrypt_preactive': lambda: kdrv.encrypt('1', _cp(block_cipher_mode=E.BlockCipherMode.CBC, padding_method=E.PaddingMethod.PKCS5,
+                                                     cryptographic_algorithm=AES), b'data', b'\x01' * 16),
+    'encrypt_placeholder': lambda: kdrv.encrypt(None, _cp(block_cipher_mode=E.BlockCipherMode.CBC, padding_method=E.PaddingMethod.PKCS5,
+                                                        cryptographic_algorithm=AES), b'data', b'\x01' * 16),
+    'encrypt_bad_params': lambda: kdrv.encrypt('2', _cp(block_cipher_mode=E.BlockCipherMode.CBC), b'data', b'\x01' * 3),
+    'decrypt_garbage': lambda: kdrv.decrypt('2', _cp(block_cipher_mode=E.BlockCipherMode.CBC, padding_method=E.PaddingMethod.PKCS5,
+                                                   cryptographic_algorithm=AES), b'\x00' * 16, b'\x01' * 16),
+    'sign_symmetric': lambda: kdrv.sign('2', _cp(hashing_algorithm=E.HashingAlgorithm.SHA_256), b'data'),
+    'sigver_missing': lambda: kdrv.signature_verify('99', None, b'd', b's'),
+    'mac_no_mask': lambda: kdrv.mac('2', _cp(cryptographic_algorithm=E.CryptographicAlgorithm.HMAC_SHA256), b'data'),
+    'mac_opaque': lambda: kdrv.mac('3', _cp(cryptographic_algorithm=E.CryptographicAlgorithm.HMAC_SHA256), b'data'),
+    'locate_all': lambda: kdrv.locate(),
+    'locate_name': lambda: kdrv.locate([kdrv.attr(AT.NAME, kdrv.name_value('n1'))]),
+    'locate_state': lambda: kdrv.locate([kdrv.attr(AT.STATE, E.State.ACTIVE)]),
+    'locate_bad_offset': lambda: kdrv.locate(offset=50, maximum=1),
+    'get_wrapped_missing_key': lambda: kdrv.get('1', wrap=kdrv.cobjects.KeyWrappingSpecification(
+        wrapping_method=E.WrappingMethod.ENCRYPT,
+        encryption_key_information=kdrv.cobjects.EncryptionKeyInformation(
+            unique_identifier='99', cryptographic_parameters=_cp(block_cipher_mode=E.BlockCipherMode.NIST_KEY_WRAP)))),
+    'get_bad_format': lambda: kdrv.get('1', fmt=E.KeyFormatType.PKCS_8),
+    'get_compressed': lambda: kdrv.get('1', compression=E.KeyCompressionType.EC_PUBLIC_KEY_TYPE_UNCOMPRESSED),
+    'register_certificate': lambda: kdrv.register(OT.CERTIFICATE),
+    'register_public_key': lambda: kdrv.register(OT.PUBLIC_KEY, names=['pk']),
+    'register_private_key': lambda: kdrv.register(OT.PRIVATE_KEY),
+    'register_split_key': lambda: kdrv.register(OT.SPLIT_KEY),
+    'register_with_asi': lambda: kdrv.register(OT.SYMMETRIC_KEY, attrs=[kdrv.attr(AT.CRYPTOGRAPHIC_USAGE_MASK, list(kdrv.ENC_DEC)),
+                                                                         kdrv.attr(AT.APPLICATION_SPECIFIC_INFORMATION, _asi('ns', 'd1'), 0)]),
+    'register_policy_name': lambda: kdrv.register(OT.SYMMETRIC_KEY, attrs=[kdrv.attr(AT.OPERATION_POLICY_NAME, 'public')]),
+    'register_two_masks': lambda: kdrv.register(OT.SYMMETRIC_KEY, attrs=[kdrv.attr(AT.CRYPTOGRAPHIC_USAGE_MASK, list(kdrv.ENC_DEC)),
+                                                                          kdrv.attr(AT.CRYPTOGRAPHIC_USAGE_MASK, [E.CryptographicUsageMask.SIGN])]),
+    'register_index_gap': lambda: kdrv.register(OT.SYMMETRIC_KEY, attrs=[kdrv.attr(AT.NAME, kdrv.name_value('a1')), kdrv.attr(AT.NAME, kdrv.name_value('a2'))]),
+    'create_with_asi': lambda: kdrv.create(extra=[kdrv.attr(AT.APPLICATION_SPECIFIC_INFORMATION, _asi('ns', 'd2'), 0)], names=['wa']),
+    'create_wrong_alg_length': lambda: kdrv.create(alg=E.CryptographicAlgorithm.TRIPLE_DES, length=256),
+    'create_template_name': lambda: (OP.CREATE, payloads.CreateRequestPayload(object_type=OT.SYMMETRIC_KEY, template_attribute=kdrv.cobjects.TemplateAttribute(
+        names=[kdrv.cattrs.Name.create('tmpl', E.NameType.UNINTERPRETED_TEXT_STRING)], attributes=kdrv.sym_attrs(AES, 256, kdrv.ENC_DEC)))),
+    'modify_asi_v1': lambda: kdrv.modify_attribute_v1('11', kdrv.attr(AT.APPLICATION_SPECIFIC_INFORMATION, _asi('ns2', 'd3'), 0)),
+    'modify_asi_v1_out_of_range': lambda: kdrv.modify_attribute_v1('11', kdrv.attr(AT.APPLICATION_SPECIFIC_INFORMATION, _asi('ns2', 'd3'), 4)),
+    'modify_link_v1': lambda: kdrv.modify_attribute_v1('1', kdrv.raw_attr('Link', primitives.TextString('x', tag=E.Tags.ATTRIBUTE_VALUE))),
+    'modify_state_v1': lambda: kdrv.modify_attribute_v1('1', kdrv.attr(AT.STATE, E.State.ACTIVE)),
+    'modify_name_v2_match': lambda: kdrv.modify_attribute_v2('9', kdrv.attr_value('NAME', kdrv.name_value('n31')), kdrv.attr_value('NAME', kdrv.name_value('n8'))),
+    'modify_name_v2_mismatch': lambda: kdrv.modify_attribute_v2('9', kdrv.attr_value('NAME', kdrv.name_value('n32')), kdrv.attr_value('NAME', kdrv.name_value('zz'))),
+    'modify_group_v2_match': lambda: kdrv.modify_attribute_v2('7', kdrv.attr_value('OBJECT_GROUP', 'g33'), kdrv.attr_value('OBJECT_GROUP', 'g3')),
+    'modify_sens_v2_current_mismatch': lambda: kdrv.modify_attribute_v2('1', kdrv.attr_value('SENSITIVE', True), kdrv.attr_value('SENSITIVE', True)),
+    'delete_name_v2_value': lambda: kdrv.delete_attribute_v2('9', kdrv.attr_value('NAME', kdrv.name_value('n7'))),
+    'delete_name_v2_value_missing': lambda: kdrv.delete_attribute_v2('9', kdrv.attr_value('NAME', kdrv.name_value('zz'))),
+    'delete_v2_nothing': lambda: kdrv.delete_attribute_v2('9'),
+    'delete_asi_v1': lambda: kdrv.delete_attribute_v1('11', 'Application Specific Information', 0),
+    'delete_noname_v1': lambda: kdrv.delete_attribute_v1('1', None),
+    'get_attribute_list_placeholder': lambda: kdrv.get_attribute_list(),
+    'discover_versions_list': lambda: kdrv.discover_versions([(1, 2), (9, 9)]),
+    'query_all': lambda: kdrv.query(list(E.QueryFunction)[:6]),
+}
+# objects the raw items refer to, created after SETUP: 10 = active key that may derive, 11 = key with application specific information
+RAW_SETUP = [('derive_base', lambda: kdrv.create(mask=(E.CryptographicUsageMask.DERIVE_KEY,))), ('activate_10', lambda: kdrv.activate('10')),
+             ('asi_key', lambda: kdrv.create(extra=[kdrv.attr(AT.APPLICATION_SPECIFIC_INFORMATION, _asi('ns', 'd0'), 0)], names=['k11']))]
+for _n, _f in RAW_SETUP:
+    RAW[_n] = _f
+
+
+def I_raw(name):
+    return it(RAW[name]()[0].name, ('raw', name))
+
+
+def det_key_pair(real):
+    """create_asymmetric_key_pair without the RSA key generation (C08 is not about key material): the library's
+    argument checks are kept by asking it for the smallest key only when the arguments differ from the usual ones."""
+    from kmip.core import exceptions as kexc
+    def f(algorithm, length):
+        if algorithm != E.CryptographicAlgorithm.RSA or length not in (1024, 2048):
+            raise kexc.InvalidField('The cryptographic length ({0}) is not valid for the cryptographic algorithm ({1}).'.format(length, algorithm))
+        return ({'value': b'\x30\x81' + b'\x11' * 40, 'format': E.KeyFormatType.PKCS_1},
+                {'value': b'\x30\x82' + b'\x22' * 40, 'format': E.KeyFormatType.PKCS_8})
+    return f
+
+
 # ---------------------------------------------------------------------------------------------- the implementation
 def det_key(real):
     """create_symmetric_key with the library's own validation but key bytes that do not depend on os.urandom."""
@@ -232,6 +353,71 @@ def det_key(real):
         out['value'] = bytes([(length // 8) % 251]) * (length // 8)
         return out
     return f
+
+
+# ---------------------------------------------------------------------------------------------- the real session
+_CERTS = {}
+
+
+def client_cert(cn):
+    """Self-signed DER certificate whose common name is the client identity (no plugin: identity = CN)."""
+    if cn not in _CERTS:
+        from cryptography import x509
+        from cryptography.hazmat.backends import default_backend
+        from cryptography.hazmat.primitives import hashes, serialization
+        from cryptography.hazmat.primitives.asymmetric import ec
+        if 'key' not in _CERTS:
+            _CERTS['key'] = ec.generate_private_key(ec.SECP256R1(), default_backend())
+        key = _CERTS['key']
+        name = x509.Name([x509.NameAttribute(x509.oid.NameOID.COMMON_NAME, cn)])
+        t = datetime.datetime(2020, 1, 1)
+        b = (x509.CertificateBuilder().serial_number(1).issuer_name(name).subject_name(name)
+             .not_valid_before(t).not_valid_after(t + datetime.timedelta(days=36500)).public_key(key.public_key())
+             .add_extension(x509.ExtendedKeyUsage([x509.oid.ExtendedKeyUsageOID.CLIENT_AUTH]), True))
+        _CERTS[cn] = b.sign(key, hashes.SHA256(), default_backend()).public_bytes(serialization.Encoding.DER)
+    return _CERTS[cn]
+
+
+class Conn:
+    """What KmipSession needs of a TLS socket: the request bytes once, then end of stream."""
+    def __init__(self, data, cert):
+        self.data, self.cert, self.sent = bytes(data), cert, []
+
+    def recv(self, n):
+        out, self.data = self.data[:n], self.data[n:]
+        return out
+
+    def sendall(self, data):
+        self.sent.append(bytes(data))
+
+    def getpeercert(self, binary_form=False):
+        return self.cert
+
+    def cipher(self):
+        return ('ECDHE-RSA-AES256-GCM-SHA384', 'TLSv1.2', 256)
+
+    def shared_ciphers(self):
+        return [self.cipher()]
+
+
+class EngineTap:
+    """Stands where KmipSession expects its engine; forwards to the real one, remembers the response it returned."""
+    def __init__(self, engine):
+        self.engine = engine
+        self.response = None
+        self.version = None
+
+    @property
+    def default_protocol_version(self):
+        return self.engine.default_protocol_version
+
+    def build_error_response(self, *a):
+        return self.engine.build_error_response(*a)
+
+    def process_request(self, request, credential=None):
+        out = self.engine.process_request(request, credential)
+        self.response, self.version = out[0], out[2]
+        return out
 
 
 class Impl:
@@ -243,6 +429,7 @@ class Impl:
     def _patch(self):
         ce = self.eng.engine._cryptography_engine
         ce.create_symmetric_key = det_key(ce.create_symmetric_key)
+        ce.create_asymmetric_key_pair = det_key_pair(ce.create_asymmetric_key_pair)
 
     @property
     def now(self):
@@ -258,8 +445,8 @@ class Impl:
         self.last_dump = None
         return self
 
-    def run(self, req):
-        """Process one abstract request. -> observation dict (everything the oracles and the comparator need)."""
+    def run(self, req, wire=None):
+        """Process one abstract request (wire = {'max': n | None}: as bytes through the real KmipSession). -> observation dict (everything the oracles and the comparator need)."""
         e = self.eng.engine
         trace = []
         real = e._process_operation
@@ -279,9 +466,13 @@ class Impl:
                 last[0] = after
         e._process_operation = traced
         try:
-            r = self.eng.request(build_items(req), version=tuple(req['ver']), user=req['user'], groups=None,
-                                 batch_option=OPTS[req['opt']], batch_order=req['order'],
-                                 time_stamp=(None if req['ts'] is None else self.now + req['ts']), asynchronous=req['async'])
+            kw = dict(version=tuple(req['ver']), batch_option=OPTS[req['opt']], batch_order=req['order'],
+                      time_stamp=(None if req['ts'] is None else self.now + req['ts']), asynchronous=req['async'])
+            if wire is None:
+                r = self.eng.request(build_items(req), user=req['user'], groups=None, **kw)
+                size = None
+            else:
+                r, size = self.through_session(req, kw, wire['max'])
         finally:
             del e._process_operation
         d_after = self.eng.dump()
@@ -295,9 +486,38 @@ class Impl:
                 err = 'UNKNOWN:' + r['error']['message']
         results = [{'op': i['op'], 'bid': i['bid'], 'ok': kdrv.ok(i), 'reason': i['reason'], 'message': i['message'],
                     'uid': kdrv.first_uid(i)} for i in r['items']]
-        return {'err': err, 'err_message': r['error'] and r['error']['message'], 'results': results, 'trace': trace,
+        return {'err': err, 'err_message': r['error'] and r['error']['message'], 'results': results, 'trace': trace, 'size': size,
                 'final': abstract_store(d_after), 'dump_before': d_before, 'dump_after': d_after,
                 'moved_outside_items': last[0] != d_after}
+
+    def through_session(self, req, kw, max_size):
+        """Encode the request, hand the bytes to a real KmipSession, decode what it sends back."""
+        from kmip.core import utils as kutils
+        from kmip.core.messages import contents, messages
+        from kmip.services.server import session as session_mod, engine as engine_mod
+        ver = contents.ProtocolVersion(*kw['version'])
+        kv = contents.protocol_version_to_kmip_version(ver) or enums.KMIPVersion.KMIP_1_2
+        rm = self.eng.build(build_items(req), max_size=max_size, **kw)
+        buf = kutils.BytearrayStream()
+        rm.write(buf, kmip_version=kv)
+        conn = Conn(buf.buffer, client_cert(req['user']))
+        tap = EngineTap(self.eng.engine)
+        engine_mod.time = self.eng.clock
+        sess = session_mod.KmipSession(tap, conn, ('192.0.2.8', 5696), name='c08', enable_tls_client_auth=True, auth_settings=[])
+        sess._logger.setLevel(logging.CRITICAL + 1)
+        sess._handle_message_loop()
+        assert len(conn.sent) == 1, 'the session sent %d messages for one request' % len(conn.sent)
+        resp = messages.ResponseMessage()
+        resp.read(kutils.BytearrayStream(conn.sent[0]), kmip_version=kv)
+        size = None
+        if tap.response is not None:
+            b2 = kutils.BytearrayStream()
+            copy.deepcopy(tap.response).write(b2, kmip_version=contents.protocol_version_to_kmip_version(tap.version))
+            size = len(b2.buffer)
+        items = [kdrv.project_item(bi) for bi in resp.batch_items]
+        if len(items) == 1 and items[0]['op'] is None and not kdrv.ok(items[0]):
+            return {'error': {'reason': items[0]['reason'], 'message': items[0]['message']}, 'items': []}, size
+        return {'error': None, 'items': items}, size
 
     def close(self):
         self.eng.close()
@@ -430,10 +650,10 @@ def canon(x):
 
 # ---------------------------------------------------------------------------------------------- direct oracles
 def creating(itm):
-    return itm['b'][0] in ('create', 'register')
+    return itm['b'][0] in ('create', 'register') or (itm['b'][0] == 'raw' and itm['op'] in ('CREATE', 'REGISTER', 'CREATE_KEY_PAIR', 'DERIVE_KEY'))
 
 
-def oracle(ctx, history, req_, pre_dump, obs, twin_factory=None):
+def oracle(ctx, history, req_, pre_dump, obs, twin_factory=None, extra=None):
     """The property itself, evaluated on the implementation's behaviour alone.  -> list of violation kinds found."""
     found = []
     items, res, tr = req_['items'], obs['results'], obs['trace']
@@ -441,9 +661,12 @@ def oracle(ctx, history, req_, pre_dump, obs, twin_factory=None):
            'observed': {'error': obs['err_message'], 'results': [{k: r[k] for k in ('op', 'bid', 'ok', 'reason', 'message')} for r in res],
                         'per_item(store_changed, session_dirty, placeholder)': tr}}
 
-    def v(kind, what, **extra):
+    if extra:
+        wit.update(extra)
+
+    def v(kind, what, **more):
         sig = {'kind': kind}
-        sig.update(extra)
+        sig.update(more)
         found.append(kind)
         ctx.violation(sig, wit, what)
 
@@ -476,7 +699,7 @@ def oracle(ctx, history, req_, pre_dump, obs, twin_factory=None):
     if not any(c for c, _, _ in tr) and obs['dump_before'] != obs['dump_after']:
         v('unreported-effect', 'no item changed the store but the store differs after the request')
     # placeholder: an identifier-less Get-like item addresses the object created last in this batch
-    last_uid = None
+    last_uid, alive = None, False
     for k, r in enumerate(res):
         b = items[k]['b']
         if b[0] == 'get' and b[1] is None:
@@ -484,8 +707,12 @@ def oracle(ctx, history, req_, pre_dump, obs, twin_factory=None):
                 v('placeholder-leak', 'identifier-less %s succeeded although nothing was created earlier in the batch' % r['op'], position=k)
             if last_uid is not None and r['ok'] and r['uid'] != last_uid:
                 v('placeholder-wrong', 'identifier-less %s answered for %s, the batch created %s last' % (r['op'], r['uid'], last_uid), position=k)
+            if last_uid is not None and alive and not r['ok']:
+                v('placeholder-lost', 'identifier-less %s failed (%s) although the batch created %s and did not destroy it' % (r['op'], r['reason'], last_uid), position=k)
+        if r['ok'] and b[0] == 'destroy':
+            alive = alive and not (b[1] is None or str(b[1]) == last_uid)
         if r['ok'] and creating(items[k]):
-            last_uid = r['uid']
+            last_uid, alive = r['uid'], True
     # failed items do not disturb the others: the batch without them gives the same answers and the same store
     if twin_factory is not None and fails and len(fails) < len(res):
         keep = [k for k, r in enumerate(res) if r['ok']]
@@ -508,6 +735,7 @@ class Runner:
         self.ctx = ctx
         self.work = ctx.work
         self.cases, self.meta = [], []
+        self.scases, self.smeta = [], []
         self.snap = None
         self.main = self.twin = None
 
@@ -568,6 +796,59 @@ class Runner:
             self.account(r, obs)
             done.append(r)
             pre = obs['final']
+        return hits
+
+    def sweep(self, reqs, label):
+        """Requests containing items outside the model: direct oracle only (no K case)."""
+        ctx = self.ctx
+        im = self.fresh()
+        prefix = [req([I_raw(n)]) for n, _ in RAW_SETUP]
+        for q in prefix:
+            o = im.run(q)
+            assert o['err'] is None and all(x['ok'] for x in o['results']), ('raw setup failed', q, o['results'])
+        hits, done = [], list(prefix)
+        for r in reqs:
+            obs = im.run(r)
+
+            def twin_at_same_point(pfx=list(done)):
+                t = self.fresh_twin(self.snapshot())
+                for q in pfx:
+                    t.run(q)
+                return t
+            hits += oracle(ctx, list(done), r, None, obs, twin_at_same_point)
+            ctx.case_seen(canon(['sweep', r, [(x['ok'], x['reason']) for x in obs['results']]]), nontrivial=True)
+            ctx.count('oracle_only.requests')
+            for x in obs['results']:
+                ctx.count('oracle_only.item.%s.%s' % (x['op'], 'ok' if x['ok'] else x['reason']))
+            done.append(r)
+        return hits
+
+    def wire(self, prefix, r, max_size, label):
+        """`prefix` in process, then `r` as bytes through the real KmipSession with Maximum Response Size `max_size`."""
+        ctx = self.ctx
+        r = dict(r, items=[i for i in r['items'] if expressible(i, r['ver'])])
+        im = self.fresh()
+        pre = self.setup_store
+        for q in prefix:
+            pre = im.run(q)['final']
+        try:
+            obs = im.run(r, wire={'max': max_size})
+        except Exception as e:
+            ctx.count('wire.not_sendable.%s' % type(e).__name__)
+            return []
+        if obs['err'] is not None and obs['err'].startswith('UNKNOWN'):
+            ctx.count('wire.rejected_by_parser')
+            if obs['dump_before'] != obs['dump_after'] or obs['trace']:
+                ctx.violation({'kind': 'request-error-with-effect', 'error': 'parse'}, {'request': r, 'max_response_size': max_size},
+                              'the session answered %r although items were executed' % obs['err_message'])
+            return []
+        self.scases.append(coq_scase(pre, r, im.now, obs, max_size))
+        self.smeta.append({'label': label, 'history_after_setup': list(prefix), 'request': r, 'max_response_size': max_size,
+                           'impl': {'err': obs['err'], 'size': obs['size'], 'results': [(x['op'], x['bid'], x['ok'], x['reason']) for x in obs['results']],
+                                    'trace': obs['trace'], 'final': obs['final']}})
+        hits = oracle(ctx, list(prefix), r, None, obs, None, extra={'max_response_size': max_size, 'through': 'KmipSession'})
+        ctx.case_seen(canon(['wire', r, max_size, obs['err']]), nontrivial=True)
+        ctx.count('wire.max_%s.%s' % (max_size, obs['err'] or 'results'))
         return hits
 
     def account(self, r, obs):
@@ -678,6 +959,43 @@ def gen_all(run, ctx):
         run.history(reqs, 'random')
 
 
+def gen_sweep(run, ctx):
+    quick = ctx.tier == 'quick'
+    rng = ctx.subrng('c08-sweep')
+    names = [n for n in RAW if n not in dict(RAW_SETUP)]
+    M = menu()
+    committing = [I_modify(1, 'AName', 0, 91), I_create(names=[92]), I_activate(1), I_delete(9, 'AName', 0), I_revoke(6, True)]
+    for n in names:
+        for ver in [(1, 2), (2, 0)] + ([] if quick else [(1, 0), (1, 4)]):
+            run.sweep([req([I_raw(n)], ver=ver)], 'sweep:single')
+            run.sweep([req([I_raw(n), rng.choice(committing), I_get(1, 'GET_ATTRIBUTES')], ver=ver, opt='CONTINUE')], 'sweep:F S R')
+            run.sweep([req([rng.choice(committing), I_raw(n), rng.choice(committing)], ver=ver, opt=rng.choice([None, 'CONTINUE']))], 'sweep:S F S')
+    for _ in range(40 if quick else 600):
+        reqs = []
+        for _ in range(rng.randint(1, 3)):
+            n = rng.randint(1, 4)
+            items = [I_raw(rng.choice(names)) if rng.random() < 0.6 else copy.deepcopy(rng.choice(M)) for _ in range(n)]
+            reqs.append(req(items, ver=rng.choice(VERSIONS), opt=rng.choice([None, 'CONTINUE', 'CONTINUE']), user=rng.choice(['alice', 'alice', 'bob'])))
+        run.sweep(reqs, 'sweep:random')
+
+
+def gen_wire(run, ctx):
+    """A sample of the requests above once more, as bytes through the real session, with a Maximum Response Size."""
+    quick = ctx.tier == 'quick'
+    rng = ctx.subrng('c08-wire')
+    fixed = [req([I_create(names=[81])]), req([I_ro('QUERY')]), req([I_create(names=[82]), I_activate(), I_get()], opt='CONTINUE'),
+             req([I_destroy(1)]), req([I_get(99)]), req([I_create(len_ok=False), I_create()], opt='CONTINUE'),
+             req([I_create(), I_create()], ids=False), req([I_create()], opt='UNDO'), req([I_modify(1, 'AName', 0, 83)]),
+             req([I_delete(9, 'AName', None)], ver=(2, 0))]
+    for r in fixed:
+        for mx in [None, 0, 1, 64, 150, 300, 1048576]:
+            run.wire([], r, mx, 'wire:fixed')
+    pool = [m for m in run.meta if m['label'] in ('random', 'placeholder', 'mix:F S S', 'mix:S F S', 'header:options', 'header:time stamp')]
+    rng.shuffle(pool)
+    for m in pool[:(120 if quick else 1500)]:
+        run.wire(m['history_after_setup'], m['request'], rng.choice([None, None, 0, 1, 100, 200, 300, 500, 1048576]), 'wire:' + m['label'])
+
+
 def describe(run, i):
     m = run.meta[i]
     return {'label': m['label'], 'history_after_setup': m['history_after_setup'], 'request': m['request'], 'implementation': m['impl']}
@@ -716,7 +1034,7 @@ def run(ctx):
         'observation wrapper around KmipEngine._process_operation (attached from outside), deterministic key bytes for Create',
         'model scope: Batch/Store.v handlers for Create, Register, Get*, Activate, Revoke, Destroy, Modify/Set/DeleteAttribute, Query-like, unsupported '
         'operations under the `default` operation policy; other handlers are covered by the direct oracle only when generated (they are not)']
-    ok = ctx.prove('props/C08.v')
+    ctx.prove('props/C08.v', extra_targets=['theories/Batch/Cases.v', 'theories/Batch/SessionCases.v'])
     runner = Runner(ctx)
     gen_all(runner, ctx)
     ctx.log('%d requests processed by the implementation' % len(runner.cases))
@@ -728,6 +1046,13 @@ def run(ctx):
         ctx.disagreement('batch', describe(runner, i), model_says=says, impl_says=runner.meta[i]['impl'])
     if bad:
         find_failing_input(runner, ctx, bad)
+    gen_sweep(runner, ctx)
+    gen_wire(runner, ctx)
+    sbad = ctx.run_cases('session', SHEADER, runner.scases, 'check_scase',
+                         what='Batch/Session.v session_answer vs KmipSession._handle_message_loop: error | too large | results, final store')
+    for i in sbad[:20]:
+        says = ctx.model_output(SHEADER, 'smodel_says %s' % runner.scases[i]) if i in sbad[:3] else None
+        ctx.disagreement('session', runner.smeta[i], model_says=says, impl_says=runner.smeta[i]['impl'])
     for k in (0, len(runner.cases) // 2, len(runner.cases) - 1):
         ctx.sample({'request': runner.meta[k]['request'], 'implementation': runner.meta[k]['impl']})
     runner.close()
